@@ -12,9 +12,15 @@ open Lean DU
         →   {"axis":[x,y,z],"verdicts":[[id,"detected"|"outOfReach"|"outOfAngle"|"error"],…]
              (every node other than selfId, registration order),
              "picture": null (acos would raise) | [[id,[x,y,z]],…]}
+             optional "fleet": {"confs":[cfg,…],"cams":[{"node":id,"conf":k},…],
+                                "ops":[["face",cam,elevBits,rotBits] | ["shot",cam],…]}
+             (`Camera.Fleet`: all cameras constructed in order, then the operations; `tol` of "cfg")
+        →   additionally "fleet":[null | [[id,[x,y,z]],…],…]  one picture per "shot"
   "geo":    {"kind":"geo","ref":[lat,lon,alt],"targets":[[lat,lon,alt],…]}
         →   {"points":[[x,y,z],…],"ew":[bits,…],"ns":[bits,…]}  (converted points and the two
              haversine legs of each target)
+             optional "sites":[[lat,lon,alt],…] → additionally "sites":[[[x,y,z],…],…]: the same
+             targets converted relative to each further reference
 -/
 namespace NumDriver
 
@@ -31,25 +37,57 @@ def nodeOfJson (j : Json) : Except String (Nat × V3 Float) := do
 
 def jsonOfNode (p : Nat × V3 Float) : Json := Json.arr #[toJson p.1, jsonOfV3 p.2]
 
+def cfgOfJson (cj : Json) (tol : Float) : Except String (Camera.Config Float) := do
+  pure { reach := ← floatOfBits (← field cj "reach"),
+         thetaDeg := ← floatOfBits (← field cj "theta"),
+         elevationDeg := ← floatOfBits (← field cj "elevation"),
+         rotationDeg := ← floatOfBits (← field cj "rotation"),
+         tol := tol }
+
+def jsonOfPicture : Option (List (Nat × V3 Float)) → Json
+  | none => Json.null
+  | some l => Json.arr (l.map jsonOfNode).toArray
+
+/-- the fleet leg: construct the cameras in order, then run the operations; one picture per shot -/
+def runFleet (fj : Json) (tol : Float) (nodes : List (Nat × V3 Float)) : Except String Json := do
+  let confs ← (← (← field fj "confs").getArr?).toList.mapM (fun cj => cfgOfJson cj tol)
+  let mut f : Camera.Fleet Float := { confs := confs, cams := [] }
+  for cj in (← (← field fj "cams").getArr?) do
+    f := f.construct (← (← field cj "node").getNat?) (← (← field cj "conf").getNat?)
+  let mut pics : Array Json := #[]
+  for op in (← (← field fj "ops").getArr?) do
+    let a ← op.getArr?
+    if a.size < 2 then throw "fleet op: need [name, cam, …]"
+    let cam ← a[1]!.getNat?
+    match a[0]! with
+    | .str "face" =>
+      if a.size != 4 then throw "fleet op face: need [\"face\", cam, elev, rot]"
+      f := f.changeFacing cam (← floatOfBits a[2]!) (← floatOfBits a[3]!)
+    | .str "shot" =>
+      match f.view cam with
+      | none => throw "fleet op shot: no such camera"
+      | some (selfId, _) =>
+        match nodes.find? (fun p => p.1 == selfId) with
+        | none => throw "fleet op shot: the camera's node is not in the scene"
+        | some p => pics := pics.push (jsonOfPicture (f.takePicture cam p.2 nodes))
+    | _ => throw "fleet op: unknown operation"
+  pure (Json.arr pics)
+
 def runCamera (j : Json) : Except String Json := do
   let cj ← field j "cfg"
-  let c : Camera.Config Float :=
-    { reach := ← floatOfBits (← field cj "reach"),
-      thetaDeg := ← floatOfBits (← field cj "theta"),
-      elevationDeg := ← floatOfBits (← field cj "elevation"),
-      rotationDeg := ← floatOfBits (← field cj "rotation"),
-      tol := ← floatOfBits (← field cj "tol") }
+  let c ← cfgOfJson cj (← floatOfBits (← field cj "tol"))
   let selfId ← (← field j "selfId").getNat?
   let self ← v3OfJson (← field j "self")
   let nodes ← (← (← field j "nodes").getArr?).toList.mapM nodeOfJson
   let others := nodes.filter (fun p => p.1 != selfId)
   let verdicts := others.map (fun p =>
     Json.arr #[toJson p.1, Json.str (verdictName (Camera.judge c self p.2))])
-  let pic := match Camera.takePicture c selfId self nodes with
-    | none => Json.null
-    | some l => Json.arr (l.map jsonOfNode).toArray
+  let pic := jsonOfPicture (Camera.takePicture c selfId self nodes)
+  let fleet ← match fieldD j "fleet" Json.null with
+    | .null => pure Json.null
+    | fj => runFleet fj c.tol nodes
   pure (Json.mkObj [("axis", jsonOfV3 (Camera.axis c)), ("verdicts", Json.arr verdicts.toArray),
-    ("picture", pic)])
+    ("picture", pic), ("fleet", fleet)])
 
 def runGeo (j : Json) : Except String Json := do
   let ref ← v3OfJson (← field j "ref")
@@ -57,8 +95,12 @@ def runGeo (j : Json) : Except String Json := do
   let pts := tgts.map (fun t => jsonOfV3 (Geo.geoToCartesian ref t))
   let ew := tgts.map (fun t => bitsOfFloat (Geo.haversine ref.x ref.y ref.x t.y))
   let ns := tgts.map (fun t => bitsOfFloat (Geo.haversine ref.x ref.y t.x ref.y))
+  let sites ← match fieldD j "sites" Json.null with
+    | .null => pure []
+    | sj => (← sj.getArr?).toList.mapM v3OfJson
+  let sitePts := sites.map (fun r => Json.arr (tgts.map (fun t => jsonOfV3 (Geo.geoToCartesian r t))).toArray)
   pure (Json.mkObj [("points", Json.arr pts.toArray), ("ew", Json.arr ew.toArray),
-    ("ns", Json.arr ns.toArray)])
+    ("ns", Json.arr ns.toArray), ("sites", Json.arr sitePts.toArray)])
 
 def run (j : Json) : Except String Json := do
   match (← field j "kind") with
